@@ -905,24 +905,35 @@ impl Interp {
                 Ok(ks.inner().rotate_memtable()?.to_string())
             }
             "step" => {
-                exact(a, 0)?;
+                // `step` may carry a hint token (used by the model side only); it is ignored here
                 let db = self.state().db()?;
+                let before = db.inner().seqno();
                 Ok(match db.inner().verif_step()? {
                     None => "none".into(),
-                    Some(d) => step_kind(&d).into(),
+                    Some(d) => {
+                        // a `*` marks a step during which some tree changed its version
+                        // (a seqno was drawn): a flush that registered tables, a compaction that ran
+                        let star = if db.inner().seqno() != before { "*" } else { "" };
+                        format!("{}{star}", step_kind(&d))
+                    }
                 })
             }
             "drain" => {
-                exact(a, 0)?;
                 let db = self.state().db()?;
-                let mut n = 0usize;
-                while n < 200 && db.inner().verif_queue_len() > 0 {
-                    if db.inner().verif_step()?.is_none() {
+                let mut kinds: Vec<String> = vec![];
+                while kinds.len() < 200 && db.inner().verif_queue_len() > 0 {
+                    let before = db.inner().seqno();
+                    let Some(d) = db.inner().verif_step()? else {
                         break;
-                    }
-                    n += 1;
+                    };
+                    let star = if db.inner().seqno() != before { "*" } else { "" };
+                    kinds.push(format!("{}{star}", step_kind(&d)));
                 }
-                Ok(n.to_string())
+                Ok(if kinds.is_empty() {
+                    "-".to_string()
+                } else {
+                    kinds.join(",")
+                })
             }
             "major" => {
                 exact(a, 1)?;
